@@ -16,6 +16,7 @@ RULE = ('the real ErrorEstimator.sobolev_space / sobolev_time / weighted_l2 / es
         'estimate_sobolev (neighbour-symmetry shortcut) equals the per-element sums (1e-12), pool with 1..16 workers equals serial bit for '
         'bit, weighted_l2 equals h_t^-1/2, h_x^-1 times the exact squared L2 norm. distinct = distinct (curve, mesh, element, neighbour, order, residual)')
 RULE += ' ' + 'In half of the cases the H^1/4 (time) and H^1/2 (space) orders differ and the polynomial degrees sit at the top of each exactness range.'
+RULE += ' ' + 'One shard per curve refines one spot in space down to the shortest elements the quadrature accepts (1e-5 < h_x <= 2e-5) and judges those leaves at orders 13-19.'
 ASSUMPTIONS = [
     'exactness range: Slobodeckij order N is exact for degree <= (N-1)/2, the outer Gauss order N_outer integrates degree <= N_outer',
     'general smooth residuals: 1e-4 at order >= 17 as stated in the property; lower orders are not judged for them; the trigonometric '
@@ -25,7 +26,7 @@ ASSUMPTIONS = [
 ]
 REQUIRED = {t: ['ind:sobolev_space', 'ind:sobolev_time', 'ind:weighted_l2', 'patch:same-piece', 'patch:corner', 'patch:seam', 'patch:circle',
                 'patch:circle-seam', 'patch:self', 'residual:polynomial', 'residual:trigonometric', 'order:1', 'order:19', 'rel:shortcut',
-                'rel:pool', 'rel:symmetry', 'rel:neighbour-set', 'rel:list-order', 'rel:pool-history', 'orders:time!=space', 'curve:UnitSquare', 'curve:PiSquare', 'curve:LShape', 'curve:Circle']
+                'rel:pool', 'rel:symmetry', 'rel:neighbour-set', 'rel:list-order', 'rel:pool-history', 'orders:time!=space', 'mesh:deep-in-space', 'curve:UnitSquare', 'curve:PiSquare', 'curve:LShape', 'curve:Circle']
             for t in ('quick', 'thorough')}
 TIMEOUT = {'quick': 1500, 'thorough': 7200}
 CURVES = ['UnitSquare', 'PiSquare', 'LShape', 'Circle']
@@ -37,6 +38,7 @@ def plan(tier, seed):
         for k in range(3 if tier == 'quick' else 10):
             specs.append({'name': 'patch-%s-%d' % (c, k), 'mode': 'patch', 'curve': c, 'rseed': seed * 641 + k, 'n_ops': 8 + 10 * k if tier == 'quick' else 10 + 8 * k,
                           'n_elem': 10 if tier == 'quick' else 40, 'n_trig': 5 if tier == 'quick' else 25})
+        specs.append({'name': 'patch-deep-%s' % c, 'mode': 'patch', 'curve': c, 'rseed': seed * 653 + 5, 'n_ops': 6, 'deep': True, 'n_elem': 8 if tier == 'quick' else 20, 'n_trig': 0})
         specs.append({'name': 'rel-%s' % c, 'mode': 'rel', 'curve': c, 'rseed': seed * 643, 'n_ops': 16 if tier == 'quick' else 40,
                       'workers': [1, 3, 16] if tier == 'quick' else [1, 2, 3, 5, 8, 13, 16]})
     specs.append({'name': 'symmetry', 'mode': 'sym', 'rseed': seed * 647, 'n': 3 if tier == 'quick' else 12})
@@ -48,13 +50,13 @@ def ekey(e):
 
 
 # ------------------------------------------------------------------ residual family
-def poly_residual(ct, cx, tm=0.0, xm=0.0):
-    """r(t, x_hat) = p(t - tm) q(x_hat - xm), coefficients low->high (floats); evaluated in the centred variables."""
+def poly_residual(ct, cx, tm=0.0, xm=0.0, xs=1.0):
+    """r(t, x_hat) = p(t - tm) q((x_hat - xm)/xs), coefficients low->high (floats); evaluated in the centred variables."""
     import numpy as np
 
     def r(t, x_hat, gamma):
         t = np.asarray(t, dtype=float) - tm
-        x = np.asarray(x_hat, dtype=float) - xm
+        x = (np.asarray(x_hat, dtype=float) - xm) / xs
         return np.polyval(ct[::-1], t) * np.polyval(cx[::-1], x)
     return r
 
@@ -144,6 +146,22 @@ def run_patch(spec, acc):
     for _ in range(spec['n_ops']):
         L = ls.leaves()
         ls.apply(('b', rng.randrange(len(L)), rng.randrange(2)))
+    deep_leaves = []
+    if spec.get('deep'):
+        # one spot refined in space down to the shortest elements the quadrature accepts (1e-5 < h_x <= 2e-5): absolute floors
+        # hidden in the seminorm routines show only there, and only at high order
+        import math as _m
+        # at the start of the parametrisation: elsewhere the node coordinates a + h*p themselves are only good to eps*|a|/h ~ 1e-10 of
+        # the element, which the difference quotients amplify beyond the 1e-8 asked for polynomials (measured 7e-7 at x_hat = 7)
+        tgt = 0.0
+        for _ in range(40):
+            cand = [e for e in ls.leaves() if e.space_interval[0] == tgt]
+            e0 = min(cand, key=lambda e: (e.h_x, e.time_interval[0]))
+            if e0.h_x / 2 <= 1.0001e-5:
+                break
+            ls.apply(('b', ls.leaves().index(e0), 1))
+        deep_leaves = sorted(ls.leaves(), key=lambda e: e.h_x)[:4]
+        acc.seen('mesh:deep-in-space')
     mesh = ls.mesh
     elems = list(mesh.leaf_elements)
     by_idx = {e.glob_idx: e for e in elems}
@@ -151,6 +169,8 @@ def run_patch(spec, acc):
     acc.seen('curve:' + curve)
     Lc = geo.length
     sample = elems if len(elems) <= spec['n_elem'] else rng.sample(elems, spec['n_elem'])
+    if deep_leaves:
+        sample = [e for e in sample if e not in deep_leaves][:max(2, spec['n_elem'] - 4)] + deep_leaves
     orders = [1, 3, 5, 7, 9, 11, 13, 15, 17, 19]
 
     def patch_kind(e, nb):
@@ -175,6 +195,8 @@ def run_patch(spec, acc):
             N = 1
         if e is sample[-1]:
             N = 19
+        if e in deep_leaves[:-1]:
+            N = rng.choice([17, 19, 13])
         N_outer = rng.choice([o for o in orders if o >= 3])
         # the H^{1/4} (time) and H^{1/2} (space) orders are separate arguments: different in half of the cases, and then the degrees are
         # taken at the top of each exactness range, so that an order handed to the wrong rule shows
@@ -199,9 +221,12 @@ def run_patch(spec, acc):
         xm = Fr(e.space_interval[0])
         tm = Fr(e.time_interval[0])
         from ..oracles.slobo import shift_scale
-        cx_abs = shift_scale(cx, -xm, Fr(1))     # q(x) := qc(x - xm)
+        # on the very short elements of the deep shard the polynomial lives on the scale of the element (otherwise it is constant to
+        # ten digits there and the difference quotients cancel: measured 7e-7 for 1 + x^2 + 1.5 x^3 on an element of length 1.5e-5)
+        xs = Fr(e.h_x) if e in deep_leaves else Fr(1)
+        cx_abs = shift_scale(cx, -xm / xs, 1 / xs)     # q(x) := qc((x - xm)/xs)
         ct_abs = shift_scale(ct, -tm, Fr(1))
-        res = poly_residual([float(c) for c in ct], [float(c) for c in cx], float(tm), float(xm))
+        res = poly_residual([float(c) for c in ct], [float(c) for c in cx], float(tm), float(xm), float(xs))
         # the weighted-L2 order is a separate argument too: in a third of the cases it is too low for the residual (then only the
         # Sobolev values are judged), so that an order handed to the wrong rule shows in the Sobolev patches
         N_wl2 = N_outer if rng.random() < 0.67 else rng.choice([1, 3])
